@@ -200,6 +200,30 @@ func checkMain(repo, verif string, args []string) int {
 				samples = append(samples, r.Name+": "+s)
 			}
 		}
+		// budget-exhausted paths: a native run that hangs as well confirms non-termination
+		hangConfirmed := false
+		for i, bv := range res.BoundPaths {
+			path := filepath.Join(verif, "replay", fmt.Sprintf("%s-%s-hang-%d.json", prop, r.Name, i+1))
+			writeReplay(path, r, cfg, bv)
+			ok, out := replayNative(repo, verif, path)
+			replayed++
+			if ok {
+				if kf := matchKnown(known, prop, r.Entry, bv); kf != nil && kf.Status == "open" {
+					if !knownHits[kf.ID] {
+						knownHits[kf.ID] = true
+						fmt.Printf("KNOWN-FINDING: property=%s %s (%s)\n", prop, kf.What, kf.ID)
+					}
+					continue
+				}
+				hangConfirmed = true
+				newViolations++
+				fmt.Printf("counterexample (%s): %s\n%s", r.Name, bv.Msg, bv.Stack)
+				fmt.Printf("VIOLATION property=%s replay=%s\n", prop, path)
+				_ = out
+				break
+			}
+		}
+		_ = hangConfirmed
 		if !res.Clean() {
 			for k := range res.Unsupported {
 				inconclusive = append(inconclusive, r.Name+": unsupported: "+k)
